@@ -205,9 +205,15 @@ def run_history(kind, h):
                 if not expect_running:
                     typ = real_socket.SOCK_DGRAM if kind == "tftp" else real_socket.SOCK_STREAM
                     foreign = real_socket.socket(real_socket.AF_INET6, typ)
-                    foreign.bind(("::1", port))
-                    if kind != "tftp":
-                        foreign.listen(1)
+                    try:
+                        foreign.bind(("::1", port))
+                        if kind != "tftp":
+                            foreign.listen(1)
+                    except OSError:
+                        # the port is still held (by a socket the server object leaked): the call below meets
+                        # that socket instead of ours; the leak shows in the observations
+                        foreign.close()
+                        foreign = "leaked"
                 done = []
 
                 def call_start():
@@ -221,7 +227,7 @@ def run_history(kind, h):
                 th = threading.Thread(target=call_start, daemon=True)
                 th.start()
                 th.join(5.0)
-                if foreign is not None:
+                if foreign is not None and foreign != "leaked":
                     foreign.close()
                 if th.is_alive():
                     hang = 1
